@@ -297,7 +297,7 @@ func (c *zooCase) Key() string {
 	return fmt.Sprintf("go %s/%s %d pkgs refs %s", c.S.GoVer, c.S.ZooGo, len(c.S.Pkgs), strings.Join(ks, ","))
 }
 func (c *zooCase) Classes() []string {
-	return []string{"main-go:" + c.S.GoVer, "zoo-go:" + c.S.ZooGo, fmt.Sprintf("main-packages:%d", len(c.S.Pkgs))}
+	return []string{"main-go:" + c.S.GoVer, "zoo-go:" + c.S.ZooGo, fmt.Sprintf("main-packages:%d", len(c.S.Pkgs)), fmt.Sprintf("results-of:%v", c.S.ZooFns)}
 }
 func (c *zooCase) Nontrivial() bool { return true }
 func (c *zooCase) InDomain() bool   { return true }
@@ -328,6 +328,15 @@ func genZoo(r *Rng, i int) Case {
 		items[a], items[b] = items[b], items[a]
 	}
 	s.Custom[key] = items
+	if r.Bool() {
+		// the generator also renders what ResultsOf says: about Q in the first package of the main module (which draws
+		// on zoo/p's B and A) and about A in zoo/p
+		s.ZooFns = true
+		s.Custom[key] = append(s.Custom[key], PItem{K: "results", Name: "A"}, PItem{K: "results", Name: "B"})
+		k0 := "rec@" + s.Pkgs[0].path() + "@A"
+		s.Reacts[k0] = "ob-"
+		s.Custom[k0] = []PItem{{K: "results", Name: "Q"}}
+	}
 	return &zooCase{S: s}
 }
 
